@@ -41,7 +41,7 @@ pub use self::commitment::{LtHash, StateCommitment};
 pub use self::state::{Address, State};
 use crate::crypto::Hash;
 use crate::crypto::hash::hash_all;
-use crate::crypto::merkle::{GENESIS_BLOCK_HASH, MerkleRoot};
+use crate::crypto::merkle::{BlockHash, GENESIS_BLOCK_HASH, MerkleRoot};
 use crate::{BlockId, Slot, Transaction};
 
 /// Identifies a block that is currently being executed.
@@ -190,6 +190,27 @@ struct BlockExec {
     /// parent block hash / genesis as a fallback) and chained over each executed
     /// transaction. This is the post-state root this node computed.
     state_hash: Hash,
+    /// Hash of the block, once known: from the start for [`InProgressBlock::Known`],
+    /// from [`ExecutionEngine::end_block`] on for [`InProgressBlock::Pending`].
+    block_hash: Option<BlockHash>,
+}
+
+impl DummyExecution {
+    /// Looks up the execution state of the block `block_id`.
+    ///
+    /// A block tracked under its slot only ([`InProgressBlock::Pending`]) matches as long as
+    /// its hash is not known to differ: another block of the same slot is not this block.
+    fn lookup(&self, block_id: &BlockId) -> Option<&BlockExec> {
+        let (slot, hash) = block_id;
+        if let Some(exec) = self.blocks.get(&InProgressBlock::Known(block_id.clone())) {
+            return Some(exec);
+        }
+        let exec = self.blocks.get(&InProgressBlock::Pending(*slot))?;
+        match &exec.block_hash {
+            Some(h) if h != hash => None,
+            _ => Some(exec),
+        }
+    }
 }
 
 /// Placeholder execution engine that counts transactions and chains a state hash.
@@ -237,11 +258,7 @@ impl ExecutionEngine for DummyExecution {
         // already pruned by finalization.
         let state_hash = parent
             .as_ref()
-            .and_then(|p| {
-                self.blocks
-                    .get(&InProgressBlock::Known(p.clone()))
-                    .or_else(|| self.blocks.get(&InProgressBlock::Pending(p.0)))
-            })
+            .and_then(|p| self.lookup(p))
             .map(|exec| exec.state_hash.clone())
             .unwrap_or_else(|| {
                 parent
@@ -249,11 +266,16 @@ impl ExecutionEngine for DummyExecution {
                     .as_hash()
                     .clone()
             });
+        let block_hash = match &id {
+            InProgressBlock::Pending(_) => None,
+            InProgressBlock::Known((_, hash)) => Some(hash.clone()),
+        };
         self.blocks.insert(
             id,
             BlockExec {
                 tx_count: 0,
                 state_hash,
+                block_hash,
             },
         );
     }
@@ -282,10 +304,18 @@ impl ExecutionEngine for DummyExecution {
     }
 
     fn end_block(&mut self, block_id: BlockId) {
-        let result = self
+        // the hash of a block tracked under its slot only is known from here on
+        let known = self
             .blocks
-            .get(&InProgressBlock::Known(block_id.clone()))
-            .or_else(|| self.blocks.get(&InProgressBlock::Pending(block_id.0)))
+            .contains_key(&InProgressBlock::Known(block_id.clone()));
+        if !known
+            && let Some(exec) = self.blocks.get_mut(&InProgressBlock::Pending(block_id.0))
+            && exec.block_hash.is_none()
+        {
+            exec.block_hash = Some(block_id.1.clone());
+        }
+        let result = self
+            .lookup(&block_id)
             .map(|exec| ExecutionResult {
                 tx_count: exec.tx_count,
                 state_commitment: exec.state_hash.clone().into(),
